@@ -153,7 +153,41 @@ def run_init_faces(col):
         s.quadrature = FakeSelf()
         s.quadrature.weights = symarray("w", (nq,), positive=True)
         s.ensure_3d = e3
-        dA, dV, normals, tangents = it.call(fn, [s], {})
+        world = "generic"
+        try:
+            dA, dV, normals, tangents = it.call(fn, [s], {})
+        except (ring.Undecided, InterpRaise) as e:
+            if "order comparison" not in str(e):
+                raise
+            # the routine compares a geometric quantity with an absolute constant: the outcome depends on the size of the cells.  The property
+            # is stated for every valid mesh, in particular for the same mesh scaled down: in the small-cell world (dXdr -> t dXdr, t -> 0+)
+            # every quantity that vanishes with dXdr lies below any positive constant (and above any negative one)
+            gsyms = {P(v) for v in G0.reshape(-1)}
+            zero_map = {v: ZERO for v in G0.reshape(-1)}
+
+            def small_cells(lhs, rhs, op):
+                for a, b, flip in ((lhs, rhs, False), (rhs, lhs, True)):
+                    b = P(b)
+                    if b.is_const() and b.const_value() != 0 and not P(a).is_const():
+                        try:
+                            vanishes = is_zero(ring.subs(P(a), zero_map))
+                        except Exception:
+                            return None
+                        if not vanishes:
+                            return None
+                        c = b.const_value()
+                        o = {"<": ">", ">": "<", "<=": ">=", ">=": "<="}[op] if flip else op
+                        return {"<": 0 < c, "<=": 0 <= c, ">": 0 > c, ">=": 0 >= c}[o]
+                return None
+
+            s.dXdr = G0.copy()
+            ring.ORDER_ORACLE[0] = small_cells
+            try:
+                dA, dV, normals, tangents = it.call(fn, [s], {})
+            finally:
+                ring.ORDER_ORACLE[0] = None
+            world = "small cells (absolute threshold in %s: %s)" % (w, str(e)[-90:])
+            col.info.setdefault("scale_dependent_comparisons", []).append("%s: %s" % (cell_type, str(e)[:200]))
         bad_o, bad_n, bad_t = [], [], []
         for q in range(nq):
             for c in range(nc):
@@ -177,7 +211,7 @@ def run_init_faces(col):
                     if not is_zero(tt - ONE) or not is_zero(td):
                         bad_t.append((q, c))
         col.add("C13.O3", "_init_faces %s orientation" % cell_type, "dA is orthogonal to the facet and dA . dX/dxi_last == -det(dXdr) w: outward at the facet xi_last = -1 of a positively oriented cell", not bad_o, "%s: %s" % (w, bad_o[:4]))
-        col.add("C13.O3", "_init_faces %s normals" % cell_type, "normals are unit vectors dA / |dA| and dV == |dA|", not bad_n, "%s: %s" % (w, bad_n[:4]))
+        col.add("C13.O3", "_init_faces %s normals" % cell_type, "normals are unit vectors dA / |dA| and dV == |dA|", not bad_n, "%s: %s [world: %s]" % (w, bad_n[:4], world))
         col.add("C13.O3", "_init_faces %s tangents" % cell_type, "tangents are unit vectors orthogonal to the area vector", not bad_t and len(tangents) == (2 if (dim == 3 or e3) else 1), "%s: %s" % (w, bad_t[:4]))
         if e3:
             col.add("C13.O3", "_init_faces %s ensure_3d" % cell_type, "ensure_3d pads area vectors and normals with a zero third component", dA.shape[0] == 3 and normals.shape[0] == 3 and not P(dA[2, 0, 0]).t)
